@@ -332,6 +332,7 @@ func stagePaths(w *gal.Writer, r *gal.Rand) {
 			}
 		}
 	}
+	stagePaths2(w, r)
 }
 
 func first(l []string) string {
